@@ -232,6 +232,11 @@ def configs(text):
         k = 0
         for ch in node['children']:
             cs = ch['name'] in sel
+            if ch['abstract']:
+                # a nested abstract clafer is a type declaration: it has no instance, nor has anything below it
+                if cs or not ok(ch, sel):
+                    return False
+                continue
             if cs and not me:
                 return False
             if cs:
